@@ -98,7 +98,7 @@ class CodecUnit(Unit):
             f.f['_Frame__data'] = {'k': z3.Int(f'data{i}')} if nonempty else {}
             topic = ('main', '_hidden')[i]
             frames[topic] = f
-            src[topic] = dict(f=f, kind=kind, fmt=fmt, wr=wr, jc=jc, P=f.entry_pix, data=dict(f.f['_Frame__data']), jpg0=f.f['_Frame__jpg'], shapef=f.f['_Frame__shapef'])
+            src[topic] = dict(f=f, kind=kind, fmt=fmt, wr=wr, jc=jc, P=f.entry_pix, data=dict(f.f['_Frame__data']), jpg0=f.f['_Frame__jpg'], shapef=f.f['_Frame__shapef'], img0=f.f['_Frame__image'] if isinstance(f.f.get('_Frame__image'), Obj) else None)
         ex.replay_info = dict(specs=[[list(k), ne] for k, ne in specs], outs_jpg=oj)
         ex.model_vars = {f'{d}_t{i}': z3.Int(f'{d}_t{i}') for i in range(len(specs)) for d in ('h', 'w')}
         try:
@@ -140,6 +140,8 @@ class CodecUnit(Unit):
             oimg = o.f['_Frame__image']
             if enc == 'raw':
                 ex.cover('round trip: raw')
+                ex.oblige('C09.raw_copy: the raw image part handed to the wire is a copy (it shares no memory with the frame image, so a later in-place edit cannot alter what is delivered)',
+                          not IM.shares_memory_with(msg[1], s['img0']) if s.get('img0') is not None else True)
                 ex.oblige('C09.raw: images sent raw come back pixel-identical', isinstance(oimg, Obj) and oimg.cls == 'ndarray' and oimg.f['pix'] == s['P'])
             else:
                 ex.cover('round trip: jpg')
@@ -178,7 +180,16 @@ class CodecUnit(Unit):
     def _roundtrip(self, frames, info, np, RMQ, tag):
         obs = []
         try:
-            back = RMQ.topicmsgs2frames(RMQ.frames2topicmsgs(frames, info['outs_jpg']))
+            msgs = RMQ.frames2topicmsgs(frames, info['outs_jpg'])
+            for t, f in frames.items():
+                m = msgs.get(t)
+                if f.has_image and m and isinstance(m[0], dict) and m[0].get('img', [None] * 4)[3] == 'raw' and not f.has_jpg:
+                    try:
+                        if np.shares_memory(np.frombuffer(m[1], np.uint8), f.image):
+                            obs.append(f'{t}: the raw image part of the message shares memory with the frame image (an in-place edit after send() would alter what is delivered)')
+                    except Exception:
+                        pass
+            back = RMQ.topicmsgs2frames(msgs)
             for t, f in frames.items():
                 o = back.get(t)
                 if o is None or o.data != f.data or o.has_image != f.has_image or (f.has_image and (o.height, o.width, o.format) != (f.height, f.width, f.format)):
